@@ -9,6 +9,7 @@ import (
 	"encoding/json"
 	"errors"
 	"fmt"
+	"io"
 	"os"
 	"path/filepath"
 	"sync"
@@ -25,6 +26,8 @@ type vfC17Op struct {
 	Len      int64
 	Fail     bool // a fetch issued by this get fails
 	Scribble bool // ... after writing garbage into the buffer
+	ErrKind  int  // how the failing fetch fails: 0 (0, injected error); 1 (half of the bytes, io.EOF) - a truncated remote;
+	//                2 (0, io.EOF); 3 (half, io.ErrUnexpectedEOF); 4 (0, context.DeadlineExceeded)
 }
 
 type vfC17Case struct {
@@ -49,6 +52,7 @@ type vfC17Stats struct {
 func vfC17eval(c *vfC17Case, st *vfC17Stats) error {
 	file := vfFileBytes(c.Size)
 	var failNow, scribble bool
+	errKind := 0
 	fetches, failedFetches := 0, 0
 	rc := NewRangeCache(int64(c.Size), "vf", func(p []byte, off int64) (int, error) {
 		fetches++
@@ -62,6 +66,16 @@ func vfC17eval(c *vfC17Case, st *vfC17Stats) error {
 				for i := range p {
 					p[i] = 0xBD
 				}
+			}
+			switch errKind {
+			case 1:
+				return copy(p[:len(p)/2], file[off:]), io.EOF
+			case 2:
+				return 0, io.EOF
+			case 3:
+				return copy(p[:len(p)/2], file[off:]), io.ErrUnexpectedEOF
+			case 4:
+				return 0, context.DeadlineExceeded
 			}
 			return 0, errVfInjected
 		}
@@ -93,7 +107,7 @@ func vfC17eval(c *vfC17Case, st *vfC17Stats) error {
 			rc.DeleteOldEntries(ctx, 24*time.Hour)
 		case "get":
 			valid := op.Start >= 0 && op.Len >= 0 && op.Start+op.Len <= int64(c.Size)
-			failNow, scribble = op.Fail, op.Scribble
+			failNow, scribble, errKind = op.Fail, op.Scribble, op.ErrKind
 			f0, ff0 := fetches, failedFetches
 			got, err := rc.GetRange(ctx, op.Start, op.Len)
 			failNow = false
@@ -161,6 +175,7 @@ func vfC17genOp(t *rapid.T, size int) vfC17Op {
 	if op.Kind == "get" {
 		op.Fail = rapid.IntRange(0, 5).Draw(t, "fail") == 0
 		op.Scribble = rapid.Bool().Draw(t, "scribble")
+		op.ErrKind = rapid.IntRange(0, 4).Draw(t, "errKind")
 	}
 	return op
 }
@@ -217,6 +232,10 @@ func TestVfC17Exhaustive(t *testing.T) {
 			alphabet = append(alphabet, vfC17Op{Kind: "get", Start: s, Len: l})
 			if s >= 0 && l >= 0 && s+l <= size {
 				alphabet = append(alphabet, vfC17Op{Kind: "get", Start: s, Len: l, Fail: true, Scribble: true})
+				if s+l == size && l > 0 {
+					// a read up to the end of the file against a truncated remote
+					alphabet = append(alphabet, vfC17Op{Kind: "get", Start: s, Len: l, Fail: true, ErrKind: 1})
+				}
 				alphabet = append(alphabet, vfC17Op{Kind: "set", Start: s, Len: l})
 			}
 		}
